@@ -1144,7 +1144,22 @@ def run(ctx):
             key = "lpr" if c["kind"] == "lpr" else "lcpr"
             lo = _flat(outs_a[0], key)
             hi = _flat(outs_a[1], key)
-            if lo is not None and hi is not None and lo.shape == hi.shape and np.any(hi < lo * (1 - 1e-3)):
+            # x P x^T is formed from an explicitly computed pseudo-inverse, so it carries a relative error of
+            # about eps * kappa_r (kappa_r = condition number of the spectrum pinv retains, ~ lambda_max / alpha
+            # for these rank-deficient covariances): the monotonicity test is meaningful only beyond that noise
+            try:
+                _d = len(c["train"][0][0])
+                _tr = [np.array(st, dtype=float).reshape(len(st), _d) for st in c["train"]]
+                _sf = np.sqrt(np.sum(np.mean(np.vstack(_tr) ** 2, axis=0)))
+                _Xs = np.vstack([np.mean(st / _sf, axis=0) for st in _tr])
+                _kap = max(_retained_kappa(_Xs, a1), _retained_kappa(_Xs, 30.0 * a1))
+            except Exception:  # noqa
+                _kap = float("inf")
+            mono_tol = 1e-3 + 1024 * EPS * _kap
+            stats["small_alpha_mono_tol_max"] = max(stats.get("small_alpha_mono_tol_max", 0.0), min(mono_tol, 1e9))
+            if mono_tol >= 0.5:
+                stats["small_alpha_mono_skipped_illconditioned"] = stats.get("small_alpha_mono_skipped_illconditioned", 0) + 1
+            if lo is not None and hi is not None and lo.shape == hi.shape and mono_tol < 0.5 and np.any(hi < lo * (1 - mono_tol)):
                 C.report_violation(ctx, "C20 fails on the implementation: rigidities decrease when alpha grows from %g to %g" % (a1, a1 * 30),
                                    dict(case=dict(c, alpha=a1), observed=outs_a[0], observed_larger_alpha=outs_a[1]),
                                    found_input=True)
